@@ -137,10 +137,13 @@ def c06(tier):
     # Trace_CEK rejects every panic, abort, time-out or unrenderable error among their observations
     import cek
     sess_runs = 0
-    for gi, (kind, cnt, extra) in enumerate([('cont', 80 if q else 3000, []), ('fail', 25 if q else 800, ['kmax=20']),
-                                             ('lang', 120 if q else 5000, ['fail=30'])]):
+    # (the allocation sessions run under forced collection schedules: a panic that needs a collection at a
+    # particular point -- e.g. while a failure is being reported -- is a panic all the same)
+    for gi, (kind, cnt, extra, cfgs) in enumerate([('cont', 80 if q else 3000, [], 'basic'), ('fail', 25 if q else 800, ['kmax=20'], 'basic'),
+                                                   ('lang', 120 if q else 5000, ['fail=30'], 'basic'),
+                                                   ('alloc', 30 if q else 600, [], 'gc')]):
         sout = os.path.join(wd, 'sess%d.ndjson' % gi)
-        sargs = ['gen', kind, 'seed=%d' % (vlib.seed() + 50 + gi), 'count=%d' % cnt, 'cfgs=basic', 'out=' + sout] + extra
+        sargs = ['gen', kind, 'seed=%d' % (vlib.seed() + 50 + gi), 'count=%d' % cnt, 'cfgs=' + cfgs, 'out=' + sout] + extra
         p = vlib.harness(sargs, check=False, timeout=600 if q else 6000)
         if p.returncode != 0:
             os.environ.setdefault('VERIF_CHILD_SECS', '25' if q else '90')
